@@ -85,4 +85,18 @@ TEXT['C19'] = dict(
     design_ref='DESIGN.md section 4 (C19)',
     note='Trusted: pyvc element-wise numpy dialect, assumed contracts of np.nanmax / nanmin / isnan / all, z3 non-linear real arithmetic; A-REAL.',
     technique='contract-based deductive verification: element-wise postconditions + arithmetic lemmas, z3; bounded run for step scaling')
+_PB = 'contract-based deductive verification (full-mode contracts on the real ASTs, z3; frame contracts) + bounded run-time check for the clauses resting on library semantics'
+for _pid, _t in {
+    'C04': 'Percentile-of-the-look-back-tail, floor coding and table order are proved on the real code; which hits are selected (pandas) and the statistics / fluffiness are recomputed natively on a scene grammar (bounded).',
+    'C05': 'Frame proof that no stage touches the hit columns, proof of the MSA cropping at construction, lemma that generated layer ids cannot collide; coverage of all hits by cluster labels is bounded.',
+    'C06': 'Bin lookup and percentile routine proved; the merge loop and the mixture re-merge pass are outside the contracts and the reported separations are checked natively on targeted scenes (bounded).',
+    'C08': 'Every raise is AmpycloudError (syntactic), all partial operations in the functions under contract are proved safe; totality of third-party code and of the stage bodies is explored on valid scenes only (bounded).',
+    'C10': 'MSA cropping proved for arbitrary index labels (true pandas label semantics), frame obligations on positional access and index normalisation; equality of outcomes under relabelling is bounded.',
+    'C16': 'Syntactic flow proof that names are used as labels only; the relation between two renamed runs is checked natively (bounded).',
+}.items():
+    TEXT[_pid] = dict(text=_t, design_ref=f'DESIGN.md section 4 ({_pid})', note='Trusted: pyvc (A-PY, A-REAL, A-FRAME), library contracts in pyvc/lib.py; bounded parts never counted as proved.', technique=_PB)
+TEXT['C14'] = dict(text='Bounded exploration of call sequences (all sequences up to length 3-4 over the ten operations on four scenes).', design_ref='DESIGN.md section 4 (C14)',
+                   note='bounded only at this commit', technique='bounded run-time check of the typestate protocol (deductive part pending)')
+TEXT['C15'] = dict(text='Bounded exploration of defect combinations on the input checker.', design_ref='DESIGN.md section 4 (C15)', note='bounded only at this commit',
+                   technique='bounded run-time check (deductive part pending)')
 NA = {}
